@@ -304,7 +304,36 @@ verdict_t check_percentiles(const pcase_t& c, ctx_t& ctx)
     {
         return verdict_t::discard("empty");
     }
-    return c.integers ? check_percentiles_typed<int64_t>(c, ctx) : check_percentiles_typed<double>(c, ctx);
+    // storage type of the list, as for the histograms below
+    double mag   = 0.0;
+    bool   exact = true;
+    for (const auto v : c.values)
+    {
+        mag   = std::max(mag, std::fabs(v));
+        exact = exact && static_cast<double>(static_cast<float>(v)) == v;
+    }
+    if (c.integers)
+    {
+        if (c.values.size() % 3 == 1 && mag <= 2.0e9)
+        {
+            ctx.label("storage:int32");
+            return check_percentiles_typed<int32_t>(c, ctx);
+        }
+        if (c.values.size() % 3 == 2 && mag <= 30000.0)
+        {
+            ctx.label("storage:int16");
+            return check_percentiles_typed<int16_t>(c, ctx);
+        }
+        ctx.label("storage:int64");
+        return check_percentiles_typed<int64_t>(c, ctx);
+    }
+    if (c.values.size() % 2 == 1 && exact)
+    {
+        ctx.label("storage:float");
+        return check_percentiles_typed<float>(c, ctx);
+    }
+    ctx.label("storage:double");
+    return check_percentiles_typed<double>(c, ctx);
 }
 
 // ---- histogram sub-check ---------------------------------------------------------------------
